@@ -27,6 +27,11 @@ GENERIC = [
 ] + ['collections::%s' % c.split('::')[-1] for c in c12.CMD.values() if c.startswith('collections::')]
 
 
+FLOW_TYPES = ['flowcontrol::function::FunctionCommand', 'flowcontrol::function::ReturnCommand', 'flowcontrol::function::EndFunctionCommand', 'flowcontrol::forin::ForInCommand',
+              'flowcontrol::forin::EndForInCommand', 'flowcontrol::ifelse::IfCommand', 'flowcontrol::ifelse::ElseIfCommand', 'flowcontrol::ifelse::ElseCommand', 'flowcontrol::ifelse::EndIfCommand',
+              'flowcontrol::while_mod::WhileCommand', 'flowcontrol::while_mod::EndWhileCommand', 'flowcontrol::end::CommandImpl']
+
+
 def job_generic(ctx, jr, cmds, cap):
     jr.bounds = dict(commands=cmds, argument_counts='0..3', argument_chars=cap, alphabet='all Unicode scalar values; numeric-looking strings included')
     for cmd in cmds:
@@ -36,7 +41,8 @@ def job_generic(ctx, jr, cmds, cap):
             t0 = time.time()
             args = [H.sym_str(e, 'arg%d' % i, cap) for i in range(n)]
             ctxv, st = invocation_context(e, V(n, args))
-            rs, rv = run_command(e, 'sdk::std::%s::CommandImpl' % cmd, ctxv, st)
+            ty = 'sdk::std::%s' % cmd if cmd in FLOW_TYPES else 'sdk::std::%s::CommandImpl' % cmd
+            rs, rv = run_command(e, ty, ctxv, st, selfv=T([mk_str('std::flowcontrol')] if cmd in FLOW_TYPES and 'end::' not in cmd else ([] if cmd in FLOW_TYPES else [mk_str('std')]), ty))
             jr.symex_time += time.time() - t0
             # returning at all (on some path) is the vacuity witness; every panic site / loop bound is an obligation
 
@@ -51,6 +57,7 @@ def job_generic(ctx, jr, cmds, cap):
 def replayer(v):
     k = v.get('kind')
     if k == 'c07':
+        if v['cmd'].endswith('Command') or v['cmd'] == 'CommandImpl': v['cmd'] = {'FunctionCommand': 'fn', 'ReturnCommand': 'return', 'ForInCommand': 'for', 'IfCommand': 'if', 'WhileCommand': 'while'}.get(v['cmd'], v['cmd'])
         name = {'push_stack': 'scope_push_stack', 'pop_stack': 'scope_pop_stack', 'clear': 'clear_scope', 'remove': 'remove_command', 'unset': 'unalias', 'set': 'set'}.get(v['cmd'], v['cmd'])
         vars_ = {'a%d' % i: x for i, x in enumerate(v['args'])}
         out = H.replay(dict(mode='sdk', script='r = %s %s' % (name, ' '.join('${a%d}' % i for i in range(len(v['args'])))), vars=vars_)); v['native'] = out
@@ -69,7 +76,8 @@ def main(tier, seed):
     chk.replayer = replayer
     P = dict(_panic_only=True)
     cap = 3 if tier == 'quick' else 5
-    groups = [GENERIC[i::8] for i in range(8)]
+    allc = GENERIC + FLOW_TYPES
+    groups = [allc[i::8] for i in range(8)]
     for gi, g in enumerate(groups): chk.job(job_generic, 'commands/%d' % gi, cmds=g, cap=cap, **P)
     chk.job(c08.job_any_line, 'parser:line', L=8 if tier == 'quick' else 12, **P)
     chk.job(c08.job_script, 'parser:script', n=3, W=3, **P)
@@ -78,7 +86,7 @@ def main(tier, seed):
     chk.job(c16.job_range, 'range', **P)
     chk.job(c11.job_history, 'scope histories', seqs=[('I', 'N', 'Q'), ('J', 'U', 'R'), ('O',), ('H', 'H', 'O', 'O'), ('I', 'J', 'Q', 'R'), ('J', 'A', 'R', 'D')], **P)
     chk.job(c06.job_slice, 'conditions', n=6 if tier == 'quick' else 8, atom_cap=3, D=3, **P)
-    chk.bounds = dict(generic_commands=len(GENERIC), argument_chars=cap, parser_line=8 if tier == 'quick' else 12)
+    chk.bounds = dict(generic_commands=len(GENERIC) + len(FLOW_TYPES), argument_chars=cap, parser_line=8 if tier == 'quick' else 12)
     chk.assumptions = ['scope: every panic site (MIR assert terminators, unwrap/expect, slicing, diverging calls) and every loop/recursion bound of the functions encoded here is a proof obligation; '
                        'the oracles of the re-used harnesses are not asserted here (they belong to their own properties)',
                        'not covered: commands backed by third-party crates (calc/evalexpr, json, semver, hex, base64 decode, case conversion, hash), fs, net, process, env, time, thread, random, '
